@@ -363,8 +363,18 @@ def scenario(rng, kind=None):
         L += ['reg h0 A - %s' % r.choice(['-', 't', 'st'])]
         if r.random() < 0.7: L += ['unref h0']
         L += ['start h0'] + (['ret 1'] if True else [])
-        L += ['batch_size h0 %d' % k] + ['tell h0 h0 p%d %d' % (i + 1, af()) for i in range(j)] + ['dispatch'] * j
-        L += ['pill h0 h0', 'dispatch', r.choice(['dereg h0', 'stop h0', 'unstash h0 1', 'ret 1']), 'ret 1', 'ret 1']
+        other = r.random() < 0.6
+        if other:
+            # traffic and pill come from another module, which is gone by the time the pill is read: nothing but the
+            # registration and the user's own reference keeps h0 then
+            L += ['reg h1 B - -', 'start h1']
+        snd = 'h1' if other else 'h0'
+        L += ['dispatch', 'batch_size h0 %d' % k] + ['tell %s h0 p%d %d' % (snd, i + 1, af()) for i in range(j)] + ['dispatch'] * j
+        L += ['pill %s h0' % snd]
+        if other:
+            L += [r.choice(['stop h1', 'stop h1', 'dereg h1', 'pause h1'])]
+            if r.random() < 0.5: L += ['unref h1']
+        L += ['dispatch', r.choice(['dereg h0', 'dereg h0', 'dereg h0', 'stop h0', 'unstash h0 1', 'ret 1']), 'ret 1', 'ret 1', 'dispatch', 'ret 1']
     elif kind == 'paused_flush':
         # messages sent to a PAUSED module, which is then stopped / deregistered while still paused
         n = r.randrange(1, 4)
